@@ -15,6 +15,8 @@ CONSTANTS
   CreateRb = FALSE
   Node2 = {"a2"}
   ClaimLocal = FALSE
+  SameAs = {}
+  Reclaim = FALSE
   Emit = FALSE
 INIT Init
 NEXT Next
